@@ -38,6 +38,7 @@ type MemFile struct {
 	FaultsHit  int
 	LastFault  IOCall
 	ReadOnlyFS bool // if true, writes and truncates fail (never used by fault-free runs)
+	TornAll    bool // FaultMode 1: every partial length 0..n-1 of a write (otherwise 0, 1, n/2, n-1 bytes)
 	// monitors
 	OnCall func(c *IOCall)
 }
@@ -65,16 +66,25 @@ func NewMemFileFrom(b []byte) *MemFile {
 func (f *MemFile) fault(isWrite bool, n int) (fail bool, keep int) {
 	switch f.FaultMode {
 	case 1:
-		alts := 2
-		if isWrite && n > 0 {
-			// 0 ok, 1 fail outright, 2.. keep 1..n-1 bytes, n+1: all bytes written then error
-			alts = 2 + n
+		if !isWrite || n == 0 {
+			return Choose(2, ClassFault) == 1, 0
 		}
-		k := Choose(alts, ClassFault)
+		// A failing write applies 0..n-1 bytes ("failing outright or after a
+		// partial write"); a write that stores all n bytes and still reports an
+		// error is outside the property's fault model.
+		if f.TornAll || n <= 4 {
+			k := Choose(1+n, ClassFault)
+			if k == 0 {
+				return false, 0
+			}
+			return true, k - 1
+		}
+		keeps := []int{0, 1, n / 2, n - 1}
+		k := Choose(1+len(keeps), ClassFault)
 		if k == 0 {
 			return false, 0
 		}
-		return true, k - 1
+		return true, keeps[k-1]
 	case 2:
 		if f.Calls == f.PlanAt {
 			k := f.PlanKeep
